@@ -49,6 +49,7 @@ MUTANTS = [
     ('C15', 'supp/server.py', r"except \(Exception, SystemExit\) as e:", "except Exception as e:", 'C15-R2'),
     ('C16', 'supp/remote.py', r"                    self\.proc\.terminate\(\)\n", "", 'C16-R3'),
     ('C12', 'supp/assistant.py', r"        try:\n            # the continuation line of `raise \.\.\. from` / `yield from` parses\n            source\.tree\n        except SyntaxError:\n", "        if True:\n", 'C12-R2'),
+    ('C14', 'supp/umsgpack.py', r"    def __hash__\(self\):\n        \"\"\"\n        Provide a hash of this Ext object \(it may be a map key\)\.\n        \"\"\"\n        return hash\(\(self\.type, self\.data\)\)\n\n", "", 'C14-R3'),
     # ---- C02
     ('C02', 'supp/scope.py', r"if len\(self\.parents\) == 1:", "if len(self.parents) >= 1:", 'C02-R4'),
     ('C02', 'supp/nast.py', r"self\.flow = self\.make_flow\('join', \[body, orelse\]\)", "self.flow = self.make_flow('join', [orelse])", 'C02-R1'),
